@@ -117,7 +117,8 @@ func startHTTP(reg *registry) (*httpCollector, error) {
 	mux.HandleFunc("/v1/traces", func(w http.ResponseWriter, r *http.Request) { c.handle(w, r, "traces") })
 	mux.HandleFunc("/v1/metrics", func(w http.ResponseWriter, r *http.Request) { c.handle(w, r, "metrics") })
 	mux.HandleFunc("/v1/logs", func(w http.ResponseWriter, r *http.Request) { c.handle(w, r, "logs") })
-	c.srv = &http.Server{Handler: mux}
+	// scenarios with a proxy hook have their own transport: idle connections are closed from this side
+	c.srv = &http.Server{Handler: mux, IdleTimeout: 2 * time.Second}
 	// fail early if loopback listening does not work at all
 	ln, err := net.Listen("tcp", "127.0.0.1:0")
 	if err != nil {
